@@ -2104,10 +2104,18 @@ class ImageIterator:
         try:
             self._animator.close()
             del self._animator
-            self._image._close_image(self._img)
-            del self._img
         except AttributeError:
             pass
+
+        try:
+            img = self._img
+            del self._img
+        except AttributeError:
+            return
+        # The underlying image might have been finalized (its `_source` is gone by then).
+        # A PIL image source (which must never be closed) is always used as-is.
+        if self._image._source_type is not ImageSource.PIL_IMAGE:
+            img.close()
 
     def seek(self, pos: int) -> None:
         """Sets the frame number to be yielded on the next iteration without affecting
